@@ -29,13 +29,13 @@ pub fn op_name(o: &Op) -> String {
     }
 }
 
-pub const REFUSALS: [&str; 6] = ["signature-mismatch", "null-pointer", "boolean-on-non-bool", "allocation-exhausted", "mprotect-fails", "mprotect-fails-persistently"];
+pub const REFUSALS: [&str; 7] = ["signature-mismatch", "null-pointer", "boolean-on-non-bool", "allocation-exhausted", "mprotect-fails", "mprotect-fails-persistently", "allocation-exhausted-forced-boolean"];
 
 /// The alphabet, simplest first (so the first counterexample is also the shortest).
 pub fn alphabet_r(with_fs: bool, small: bool, refusals: bool) -> Vec<Op> {
     let mut v = alphabet(with_fs, small);
     if refusals {
-        for k in 0..6 {
+        for k in 0..7 {
             v.push(Op::Refuse(k));
         }
     }
@@ -351,6 +351,12 @@ fn refused_install(w: &World, injector: &mut InjectorPP, k: u8) {
         4 => {
             envx::fail_mprotect_at(Some(0));
             injector.when_called(inj::func!(f1, fn() -> u32)).will_execute_raw(inj::func!(fk_f1_a, fn() -> u32))
+        }
+        6 => {
+            // no memory for the trampoline of a forced boolean
+            envx::fail_mmap_from(Some(0));
+            let b1: fn() -> bool = unsafe { std::mem::transmute::<usize, fn() -> bool>(w.addr[T::B1 as usize] as usize) };
+            injector.when_called(inj::func!(b1, fn() -> bool)).will_return_boolean(true)
         }
         _ => {
             // the page of this target (a page of its own) refuses to become writable, now and
